@@ -11,6 +11,7 @@ use std::panic::{catch_unwind, AssertUnwindSafe};
 
 pub type Call = (i128, Vec<TriggerEvent>);
 
+#[derive(Clone)]
 pub struct FwCase {
     pub id: String,
     pub kind: String,
@@ -181,9 +182,81 @@ fn panic_class(p: &Box<dyn std::any::Any + Send>) -> String {
     }
 }
 
-/// Run one case on the real framework and return its protocol text.
+enum Msg {
+    Text(String),
+    Pending(String),
+    Done,
+}
+
+/// watchdog limit for one framework call (a call normally takes microseconds)
+const CALL_WATCHDOG_SECS: u64 = 5;
+
+fn has_binomial(ms: &[Machine]) -> bool {
+    use maybenot::dist::DistType;
+    let is_b = |d: &maybenot::dist::Dist| matches!(d.dist, DistType::Binomial { .. });
+    ms.iter().any(|m| {
+        m.states.iter().any(|st| {
+            let a = match &st.action {
+                Some(maybenot::action::Action::SendPadding { timeout, limit, .. }) => is_b(timeout) || limit.as_ref().map_or(false, is_b),
+                Some(maybenot::action::Action::BlockOutgoing { timeout, duration, limit, .. }) => {
+                    is_b(timeout) || is_b(duration) || limit.as_ref().map_or(false, is_b)
+                }
+                Some(maybenot::action::Action::UpdateTimer { duration, limit, .. }) => is_b(duration) || limit.as_ref().map_or(false, is_b),
+                _ => false,
+            };
+            let c = |c: &Option<maybenot::counter::Counter>| c.as_ref().and_then(|c| c.dist.as_ref()).map_or(false, is_b);
+            a || c(&st.counter.0) || c(&st.counter.1)
+        })
+    })
+}
+
+/// Run one case on the real framework and return its protocol text. The framework runs on a
+/// worker thread; a call that does not return within the watchdog limit is reported as
+/// `o res panic hang…` (a hang is a C01 violation, not a reason for the check to hang) and the
+/// worker is left behind.
 pub fn run_case(c: &FwCase) -> String {
+    let (tx, rx) = std::sync::mpsc::channel::<Msg>();
+    let c2 = c.clone();
+    let _ = std::thread::Builder::new().stack_size(64 << 20).spawn(move || run_case_worker(&c2, tx));
     let mut out = String::new();
+    let mut pending: Option<String> = None;
+    loop {
+        match rx.recv_timeout(std::time::Duration::from_secs(CALL_WATCHDOG_SECS)) {
+            Ok(Msg::Text(t)) => {
+                out.push_str(&t);
+                pending = None;
+            }
+            Ok(Msg::Pending(t)) => pending = Some(t),
+            Ok(Msg::Done) => break,
+            Err(std::sync::mpsc::RecvTimeoutError::Timeout) => {
+                if let Some(t) = pending.take() {
+                    out.push_str(&t);
+                }
+                // diagnosis for the known sampler hang: the last random word handed out had its
+                // top 53 bits set (a uniform draw of 1 - 2^-53) and a Binomial distribution is present
+                let last = crate::util::last_word();
+                let cls = if (last >> 11) == (u64::MAX >> 11) && has_binomial(&c.machines) { "hang:binomial-after-all-ones-draw" } else { "hang" };
+                let _ = writeln!(out, "o res panic {}", cls);
+                let _ = writeln!(out, "end");
+                break;
+            }
+            Err(std::sync::mpsc::RecvTimeoutError::Disconnected) => {
+                // the worker died without `Done` (stack overflow aborts the process instead)
+                let _ = writeln!(out, "end");
+                break;
+            }
+        }
+    }
+    out
+}
+
+fn run_case_worker(c: &FwCase, tx: std::sync::mpsc::Sender<Msg>) {
+    let mut out = String::new();
+    macro_rules! flush {
+        () => {
+            let _ = tx.send(Msg::Text(std::mem::take(&mut out)));
+        };
+    }
     let _ = writeln!(out, "case {} {}", c.id, c.kind);
     for m in &c.machines {
         let _ = writeln!(out, "m {}", hex(&genm::machine_bytes(m)));
@@ -196,9 +269,16 @@ pub fn run_case(c: &FwCase) -> String {
     if let Some(p) = c.ni {
         let _ = writeln!(out, "probe {}", p);
     }
+    flush!();
     maybenot::verif::enable(true);
     let _ = maybenot::verif::take();
     let rng = mk_rng(c);
+    {
+        let mut pend = String::new();
+        fmt_log(&mut pend, &[]);
+        let _ = writeln!(pend, "new {:016x} {:016x} {}", c.fp.to_bits(), c.fb.to_bits(), c.t0);
+        let _ = tx.send(Msg::Pending(pend));
+    }
     let r = catch_unwind(AssertUnwindSafe(|| Framework::new(c.machines.clone(), c.fp, c.fb, VInstant(c.t0), rng)));
     let log = maybenot::verif::take();
     fmt_log(&mut out, &log);
@@ -212,25 +292,34 @@ pub fn run_case(c: &FwCase) -> String {
             let _ = writeln!(out, "o res err");
             let _ = writeln!(out, "end");
             maybenot::verif::enable(false);
-            return out;
+            flush!();
+            let _ = tx.send(Msg::Done);
+            return;
         }
         Err(p) => {
             let _ = writeln!(out, "o res panic {}", panic_class(&p));
             let _ = writeln!(out, "end");
             maybenot::verif::enable(false);
-            return out;
+            flush!();
+            let _ = tx.send(Msg::Done);
+            return;
         }
     };
     fmt_snapshot(&mut out, &f);
     fmt_log_out(&mut out, &log);
+    flush!();
     for (t, evs) in &c.calls {
+        let evs_s: Vec<String> = evs.iter().map(ev_str).collect();
+        let mut pend = String::new();
+        fmt_log(&mut pend, &[]);
+        let _ = writeln!(pend, "call {} {}", t, evs_s.join(" "));
+        let _ = tx.send(Msg::Pending(pend));
         let r = catch_unwind(AssertUnwindSafe(|| {
             let acts: Vec<TriggerAction<VInstant>> = f.trigger_events(evs, VInstant(*t)).cloned().collect();
             acts
         }));
         let log = maybenot::verif::take();
         fmt_log(&mut out, &log);
-        let evs_s: Vec<String> = evs.iter().map(ev_str).collect();
         let _ = writeln!(out, "call {} {}", t, evs_s.join(" "));
         match r {
             Ok(acts) => {
@@ -238,6 +327,7 @@ pub fn run_case(c: &FwCase) -> String {
                 fmt_actions(&mut out, &acts);
                 fmt_snapshot(&mut out, &f);
                 fmt_log_out(&mut out, &log);
+                flush!();
             }
             Err(p) => {
                 let _ = writeln!(out, "o res panic {}", panic_class(&p));
@@ -247,7 +337,8 @@ pub fn run_case(c: &FwCase) -> String {
     }
     let _ = writeln!(out, "end");
     maybenot::verif::enable(false);
-    out
+    flush!();
+    let _ = tx.send(Msg::Done);
 }
 
 /* ---------- generators ---------- */
